@@ -74,6 +74,10 @@ func c16History(rc *corepkg) {
 		return true
 	}
 	resets, restarts := 0, 0
+	// ResetWithIndex does not store the new index: until the flush interval (100 records, the figure of the statement)
+	// has passed since a reset the stored index is that of before the reset and a restart may legitimately come up
+	// anywhere. `stale` says that this window is open; it closes after 100 further records or at a restart.
+	stale, sinceReset := false, 0
 	for k := 0; k < nOps && len(rc.Viol) == 0; k++ {
 		switch op := s.Choose(20, "h.op"); {
 		case op < 14:
@@ -89,6 +93,9 @@ func c16History(rc *corepkg) {
 				}
 				next++
 				nextRegion++
+				if sinceReset++; sinceReset >= 100 {
+					stale = false
+				}
 			}
 		case op < 17:
 			first := next - uint64(len(log))
@@ -103,24 +110,24 @@ func c16History(rc *corepkg) {
 			h.ResetWithIndex(next)
 			log = nil
 			resets++
+			stale, sinceReset = true, 0
 		default:
 			// restart: a new buffer on the same storage
 			prev := next
 			h = syncer.SimNewHistory(capacity, store)
 			got := h.GetNextIndex()
 			restarts++
-			// (after ResetWithIndex to a smaller index the persisted value may legitimately be ahead: the statement
-			// only bounds going backwards)
-			if got > prev && resets == 0 {
+			if got > prev && !stale {
 				rc.Violate("c16.history", "index-ahead-after-restart", "next index after restart is %d, before it was %d", got, prev)
 				return
 			}
-			if prev-got > 100 && resets == 0 {
+			if got <= prev && prev-got > 100 && !stale {
 				rc.Violate("c16.history", "index-too-far-back-after-restart", "next index went back from %d to %d (> 100 records) over a restart", prev, got)
 				return
 			}
 			next = got
 			log = nil
+			stale = false
 		}
 		if h.GetNextIndex() != next {
 			rc.Violate("c16.history", "wrong-next-index", "next index is %d, expected %d", h.GetNextIndex(), next)
@@ -347,7 +354,7 @@ func init() {
 		Body:     c16,
 		MaxSteps: 3000000, MaxTime: 10 * time.Minute,
 		QuickBudget: 45 * time.Second, ThoroughBudget: 10 * time.Minute,
-		Rule: "modes: (history) the real change-log buffer with capacities 1..300 driven by random record bursts / reads inside, at the edges and outside the window / resets / restarts on the same storage, compared record by record with a slice model, next index after restart within 100 of the previous; (sync) a leader-side and a follower-side real RegionSyncer (real Sync / syncHistoryRegion / RunServer / StartSyncWithLeader code) connected through the simulated network, leader holding 0..333 regions with/without leaders and flow statistics, full synchronisation followed by incremental changes and follower stream restarts under a seeded schedule; after quiescence every region the leader holds must have the same range, peers, leader and flow statistics on the follower. non-trivial = buffer wrapped (history) or at least one region (sync)",
+		Rule: "modes: (history) the real change-log buffer with capacities 1..300 driven by random record bursts / reads inside, at the edges and outside the window / resets / restarts on the same storage, compared record by record with a slice model, next index after a restart never ahead of and at most 100 behind the previous one (unchecked only between a ResetWithIndex, which does not store the index, and the 100th record after it); (sync) a leader-side and a follower-side real RegionSyncer (real Sync / syncHistoryRegion / RunServer / StartSyncWithLeader code) connected through the simulated network, leader holding 0..333 regions with/without leaders and flow statistics, full synchronisation followed by incremental changes and follower stream restarts under a seeded schedule; after quiescence every region the leader holds must have the same range, peers, leader and flow statistics on the follower. non-trivial = buffer wrapped (history) or at least one region (sync)",
 		Real: append([]string{"server/region_syncer (history buffer, server, client)"}, realE2...), Stub: append([]string{"gRPC transport (simnet streams)", "PD Server around the syncer (minimal Server interface implementation)"}, stubE2...),
 	})
 }
